@@ -90,9 +90,8 @@ func (p Polygon) Validate() error {
 				// It's ok to access the first coord (index 0), since we've
 				// already checked to ensure that no ring is empty.
 				iStart := p.rings[i].Coordinates().GetXY(0)
-				jStart := p.rings[j].Coordinates().GetXY(0)
-				nestedFwd := relatePointToRing(iStart, p.rings[j]) == interior
-				nestedRev := relatePointToRing(jStart, p.rings[i]) == interior
+				nestedFwd := ringHasPointInsideRing(p.rings[i], p.rings[j])
+				nestedRev := ringHasPointInsideRing(p.rings[j], p.rings[i])
 				if nestedFwd || nestedRev {
 					return violateRingNested.errAtXY(iStart)
 				}
@@ -148,6 +147,23 @@ func (p Polygon) Validate() error {
 		return violateInteriorConnected.err()
 	}
 	return nil
+}
+
+// ringHasPointInsideRing checks if inner is nested inside outer, using the
+// first control point of inner that isn't on the boundary of outer. Looking
+// at only the first control point isn't enough: when that's the point where
+// the two rings touch, it says nothing about which side inner is on.
+func ringHasPointInsideRing(inner, outer LineString) bool {
+	seq := inner.Coordinates()
+	for k := 0; k < seq.Length(); k++ {
+		switch relatePointToRing(seq.GetXY(k), outer) {
+		case interior:
+			return true
+		case exterior:
+			return false
+		}
+	}
+	return false
 }
 
 func validateRing(r LineString) error {
